@@ -2,7 +2,7 @@
   `#audit_ns NS` — prints, for every theorem whose name starts with `NS`, the axioms its
   proof depends on (one line `AXIOMS <name> : a b c`), so that the check can require
   ⊆ {propext, Classical.choice, Quot.sound} for every property theorem without having
-  to list them by hand.
+  to list them by hand.  A second line `STMT <name> <hash of the type> <GEN|->` fingerprints the statement.
 -/
 import Lean
 open Lean Elab Command
@@ -21,4 +21,12 @@ elab "#audit_ns " ns:ident : command => do
     let axs ← liftCoreM (Lean.collectAxioms n)
     let axs := axs.qsort (fun a b => a.toString < b.toString)
     logInfo m!"AXIOMS {n} : {" ".intercalate (axs.toList.map toString)}"
+    -- statement fingerprint: structural hash of the theorem's TYPE (so a statement weakened to `True`, an added
+    -- hypothesis or a changed conclusion changes it) and whether the statement mentions a definition regenerated from
+    -- the source (`TamocV.Gen.*`) — a theorem that is supposed to be about regenerated code must keep doing so
+    match env.find? n with
+    | some ci =>
+      let usesGen := ci.type.getUsedConstants.any (fun c => (`TamocV.Gen).isPrefixOf c)
+      logInfo m!"STMT {n} {ci.type.hash} {if usesGen then "GEN" else "-"}"
+    | none => pure ()
   logInfo m!"AUDIT-COUNT {nsName} {sorted.size}"
